@@ -15,6 +15,7 @@ import (
 	"net/http"
 	"net/url"
 	"strings"
+	"sync"
 	"time"
 
 	"verifharness/world"
@@ -127,9 +128,23 @@ func CertSignedBy(child, parent *x509.Certificate) bool {
 	if child.SignatureAlgorithm != x509.ECDSAWithSHA256 {
 		return false
 	}
+	// memoised: the same (child, parent) pair is checked for thousands of cases
+	kh := sha256.New()
+	kh.Write(child.Raw)
+	kh.Write([]byte{0})
+	kh.Write(parent.Raw)
+	var key [32]byte
+	kh.Sum(key[:0])
+	if v, ok := sigCache.Load(key); ok {
+		return v.(bool)
+	}
 	h := sha256.Sum256(child.RawTBSCertificate)
-	return ecdsa.VerifyASN1(pub, h[:], child.Signature)
+	ok := ecdsa.VerifyASN1(pub, h[:], child.Signature)
+	sigCache.Store(key, ok)
+	return ok
 }
+
+var sigCache sync.Map
 
 func crlSignedBy(crl *x509.RevocationList, parent *x509.Certificate) bool {
 	pub := ecPub(parent)
